@@ -375,12 +375,147 @@ fn nested_loops(report: &Report, max_len: usize, three: bool) {
     });
 }
 
+
+/// Objects as loop sources: every key/value pair is visited exactly once (order is unspecified
+/// for more than one key, so visited pairs are compared as a set), whatever the values are
+/// (nil, false, empty, nested), and `forloop`/`tablerow` metadata describes the window.
+fn object_sources(report: &Report) {
+    let parser = cfgs::parser(Config::Stdlib);
+    let vals: Vec<(&str, V)> = vec![
+        ("nil", V::Nil),
+        ("false", V::Bool(false)),
+        ("true", V::Bool(true)),
+        ("0", V::Int(0)),
+        ("empty-str", V::s("")),
+        ("v", V::s("v")),
+        ("empty-arr", V::Arr(vec![])),
+        ("empty-obj", V::Obj(vec![])),
+        ("arr", V::Arr(vec![V::Int(1), V::Int(2)])),
+    ];
+    // objects: every single-key object, every two-key object over the value list, and 3/4-key mixes
+    let mut objs: Vec<Vec<(String, V)>> = Vec::new();
+    for (_, v) in &vals {
+        objs.push(vec![("k".into(), v.clone())]);
+    }
+    for (_, a) in &vals {
+        for (_, b) in &vals {
+            objs.push(vec![("ka".into(), a.clone()), ("kb".into(), b.clone())]);
+        }
+    }
+    for i in 0..vals.len() {
+        let pick = |j: usize| vals[(i + j * 2) % vals.len()].1.clone();
+        objs.push(vec![("a".into(), pick(0)), ("b".into(), pick(1)), ("c".into(), pick(2))]);
+        objs.push(vec![("size".into(), pick(0)), ("first".into(), pick(1)), ("é".into(), pick(2)), ("0".into(), pick(3))]);
+    }
+    let rendered = |v: &V| -> String {
+        // how `{{ p[1] }}` prints the value (only kinds used above)
+        match v {
+            V::Nil => "".into(),
+            V::Bool(b) => b.to_string(),
+            V::Int(i) => i.to_string(),
+            V::Str(s) => s.clone(),
+            V::Arr(a) => a.iter().map(|x| if let V::Int(i) = x { i.to_string() } else { String::new() }).collect(),
+            V::Obj(_) => "".into(),
+            _ => "?".into(),
+        }
+    };
+    // window parameters: (offset, limit), None = absent
+    let windows: Vec<(Option<usize>, Option<usize>)> = vec![(None, None), (Some(0), None), (Some(1), None), (None, Some(0)), (None, Some(1)), (None, Some(2)), (Some(1), Some(1)), (Some(1), Some(5)), (Some(9), None)];
+    let total = (objs.len() * windows.len() * 2) as u64;
+    let name = "object sources: single/multi-key objects x value kinds x windows x for|tablerow".to_string();
+    let nontriv = AtomicU64::new(0);
+    par_range(
+        report,
+        &name,
+        total,
+        |i| {
+            let d = decode(i, &[objs.len() as u64, windows.len() as u64, 2]);
+            let (o, (off, lim), tr) = (&objs[d[0] as usize], windows[d[1] as usize], d[2] == 1);
+            let n = o.len();
+            let lo = off.unwrap_or(0).min(n);
+            let hi = lim.map(|l| (lo + l).min(n)).unwrap_or(n);
+            let want = hi - lo;
+            let mut args = String::new();
+            if let Some(l) = lim {
+                args.push_str(&format!(" limit:{l}"));
+            }
+            if let Some(f) = off {
+                args.push_str(&format!(" offset:{f}"));
+            }
+            let text = if tr {
+                format!("{{% tablerow p in obj{args} %}}\u{1}{{{{ p[0] }}}}\u{2}{{{{ p[1] }}}}\u{2}{{{{ tablerow.index }}}}\u{2}{{{{ tablerow.length }}}}\u{2}{{{{ p.size }}}}{{% endtablerow %}}")
+            } else {
+                format!("{{% for p in obj{args} %}}\u{1}{{{{ p[0] }}}}\u{2}{{{{ p[1] }}}}\u{2}{{{{ forloop.index }}}}\u{2}{{{{ forloop.length }}}}\u{2}{{{{ p.size }}}}{{% else %}}ELSE{{% endfor %}}")
+            };
+            let data = V::obj(&[("obj", V::Obj(o.clone()))]);
+            report.eval();
+            let (actual, _) = cfgs::run_case(&parser, &text, &data.to_object());
+            let w = || cmp::witness(&text, &data, &[]);
+            let Outcome::Ok(out) = &actual else {
+                report.violation("C05|object-source|not-rendered", i, w(), format!("{text}: {}", actual.short()));
+                return;
+            };
+            let body = if tr { strip_tablerow(out).0 } else { out.clone() };
+            if want == 0 {
+                let expect = if tr { "" } else { "ELSE" };
+                if body != expect {
+                    report.violation("C05|object-source|empty-window", i, w(), format!("{text}: nothing is selected, expected {expect:?} got {body:?}"));
+                }
+                return;
+            }
+            nontriv.fetch_add(1, Ordering::Relaxed);
+            let cells: Vec<Vec<&str>> = body.split('\u{1}').skip(1).map(|c| c.split('\u{2}').collect()).collect();
+            let mut problems = Vec::new();
+            if cells.len() != want {
+                problems.push(format!("{} iterations, expected {want}", cells.len()));
+            }
+            let mut seen = std::collections::BTreeSet::new();
+            for (j, c) in cells.iter().enumerate() {
+                if c.len() != 5 {
+                    problems.push(format!("cell {j} malformed: {c:?}"));
+                    continue;
+                }
+                match o.iter().find(|(k, _)| k == c[0]) {
+                    None => problems.push(format!("visited key {:?} is not a key of the object", c[0])),
+                    Some((_, v)) => {
+                        if rendered(v) != c[1] {
+                            problems.push(format!("pair {:?} printed value {:?}, expected {:?}", c[0], c[1], rendered(v)));
+                        }
+                    }
+                }
+                if !seen.insert(c[0].to_string()) {
+                    problems.push(format!("key {:?} visited twice", c[0]));
+                }
+                if c[2] != (j + 1).to_string() || c[3] != want.to_string() {
+                    problems.push(format!("iteration {j}: index/length printed {}/{}, expected {}/{want}", c[2], c[3], j + 1));
+                }
+                if c[4] != "2" {
+                    problems.push(format!("pair size printed {:?}, expected 2", c[4]));
+                }
+            }
+            // a window over the whole object must visit every key
+            if want == n && seen.len() != n {
+                problems.push("not every key was visited".into());
+            }
+            if !problems.is_empty() {
+                report.violation("C05|object-source|wrong-visit", i, w(), format!("{text} on {}: {}", data.to_json(), problems.join("; ")));
+            } else if i % 7 == 0 {
+                report.outcome(&(seen.len(), want, tr));
+            }
+        },
+        |i| json!({"index": i}),
+    );
+    report.nontrivial.fetch_add(nontriv.load(Ordering::Relaxed), Ordering::Relaxed);
+    report.family(FamilyStat { name, cases: total, nontrivial: nontriv.load(Ordering::Relaxed), skipped: 0, note: format!("{} objects (values nil/false/true/0/''/'v'/[]/{{}}/[1,2]; keys incl. size/first/é/0), {} windows; visited pairs compared as a set (iteration order of multi-key objects is unspecified)", objs.len(), windows.len()) });
+}
+
 pub fn run(tier: Tier) -> i32 {
     let report = Report::new("C05", tier, "exploration");
     report.set_rule("complete product of collection length x offset x limit x reversed x loop form x argument mode x source kind, and of nested-loop lengths x interrupt kind x level/position x guard index x wrapping construct; each case distinct by construction; non-trivial = at least one iteration is predicted");
     report.assume("reference window = elems[min(offset,len) .. min(offset+limit,len)], then reversed; tablerow output compared modulo the <tr>/<td> wrapper markup, whose row/col classes are checked separately");
     single_loops(&report, 6);
     nested_loops(&report, 3, false);
+    object_sources(&report);
     if tier.thorough() {
         single_loops(&report, 8);
         nested_loops(&report, 4, true);
